@@ -123,23 +123,27 @@ def specMatches (vs : List View) (f : Filter) (m : Mask) : Bool :=
 
 /-- Write through every mutable view of the query: each visited value is replaced by a fresh copy
 (`cloneVal e`); returns the new world and the replaced (dropped) values. -/
+def writeStep (e : Nat) (acc : Arch × List Val) (c : Nat) : Arch × List Val :=
+  let k := colIndex acc.1.mask c
+  match acc.1.cols[k]? with
+  | some col => ({ acc.1 with cols := acc.1.cols.set k (col.map (cloneVal e)) }, acc.2 ++ col)
+  | Option.none => acc
+
 def writeArch (e : Nat) (vs : List View) (a : Arch) : Arch × List Val :=
   let cs := (vs.filter View.isMut).filterMap View.comp?
   let cs := cs.filter (fun c => a.mask.has c)
-  cs.foldl (fun (acc : Arch × List Val) c =>
-    let k := colIndex acc.1.mask c
-    match acc.1.cols[k]? with
-    | some col => ({ acc.1 with cols := acc.1.cols.set k (col.map (cloneVal e)) }, acc.2 ++ col)
-    | Option.none => acc) (a, [])
+  cs.foldl (writeStep e) (a, [])
+
+/-- One archetype of `queryWrite`. -/
+def writeOne (e : Nat) (vs : List View) (f : Filter) (acc : List Arch × List Val) (a : Arch) :
+    List Arch × List Val :=
+  if viewsFilter a.mask vs && f.eval a.mask then
+    ((acc.1 ++ [(writeArch e vs a).1]), acc.2 ++ (writeArch e vs a).2)
+  else (acc.1 ++ [a], acc.2)
 
 def World.queryWrite (w : World) (vs : List View) (f : Filter) (e : Nat) : World × List Val :=
-  let step := fun (acc : List Arch × List Val) (a : Arch) =>
-    if viewsFilter a.mask vs && f.eval a.mask then
-      let (a', d) := writeArch e vs a
-      (acc.1 ++ [a'], acc.2 ++ d)
-    else (acc.1 ++ [a], acc.2)
-  let (archs, drops) := w.archs.foldl step ([], [])
-  ({ w with archs := archs }, drops)
+  let r := w.archs.foldl (writeOne e vs f) ([], [])
+  ({ w with archs := r.1 }, r.2)
 
 /-- `World::entry(id).query(views, filter)`. -/
 def World.entryQuery (w : World) (id : Ident) (vs : List View) (f : Filter) :
